@@ -61,7 +61,7 @@ func c17DialAddrs() []c17Dial {
 
 var c17Schemes = []struct {
 	name, defPort, net string
-	stream            bool
+	stream             bool
 }{
 	{"", "53", "udp", false}, {"udp", "53", "udp", false}, {"tcp", "53", "tcp", true}, {"tcp+pipeline", "53", "tcp", true},
 	{"tls", "853", "tcp", true}, {"tls+pipeline", "853", "tcp", true}, {"https", "443", "tcp", true}, {"http", "80", "tcp", true},
